@@ -60,12 +60,31 @@ Theorem C53_model_is_reference : forall c ops,
 Proof. exact model_is_reference. Qed.
 Print Assumptions C53_model_is_reference.
 
-(* Central theorem.  wf_C53 i: the input decodes and the number of distinct keys does not exceed either dictionary
-   size (no LRU eviction possible).  On every such input the executable property predicate the harness evaluates on
-   the implementation (equality with the reference automaton) holds of the model; there is no known-finding class. *)
+(* With bounded dictionaries (LRU eviction of counters and prison records, reloads) a key may be forgotten, but nobody
+   is denied without cause: for every rule with period >= 0, every capacity and every history whose request times are
+   non-decreasing, each denied request (key k, time t) of the LRU model is preceded by a window [s, s+period], s a
+   request time of k, that already holds more than threshold requests of k, and t < s + period + stay. *)
+Theorem C53_eviction_denials_justified : forall c, 0 <= c_period c -> forall ops past st m,
+  Inv c past st -> times_le past m -> sorted_from m ops = true ->
+  all_justified c past ops (run_lru c st ops) = true.
+Proof. exact run_lru_justified. Qed.
+Print Assumptions C53_eviction_denials_justified.
+
+(* Central theorem.  wf_C53 i: the input decodes and either the number of distinct keys does not exceed either
+   dictionary size (no eviction possible; prop_C53 = equality with the reference automaton), or period >= 0 and the
+   request times are non-decreasing (eviction possible; prop_C53 = every denial is justified).  On every such input
+   the executable property predicate the harness evaluates on the implementation holds of the model; there is no
+   known-finding class. *)
 Theorem C53_prop_of_model : forall i, wf_C53 i = true -> kf_C53 i = 0 -> prop_C53 i (run_C53 i) = true.
 Proof. exact prop_C53_of_model. Qed.
 Print Assumptions C53_prop_of_model.
+
+(* an eviction corpus case (corpus/C53/boundaries.case, evict-access) is well-formed too *)
+Example C53_wf_evict_example :
+  let i := VL [VZ 5; VZ 4; VZ 1; VZ 1; VZ 100;
+               VL [VL [VZ 0; VZ 0]; VL [VZ 1; VZ 0]; VL [VZ 0; VZ 0]; VL [VZ 1; VZ 0]; VL [VZ 0; VZ 0]; VL [VZ 1; VZ 0]]] in
+  wf_C53 i = true /\ run_C53 i = VL [VZ 0; VZ 0; VZ 0; VZ 0; VZ 0; VZ 0].
+Proof. exact C53_wf_evict_example_lemma. Qed.
 
 (* a corpus case (corpus/C53/boundaries.case, jail) is well-formed *)
 Example C53_wf_example :
